@@ -10,7 +10,8 @@ import Peppi.Lemmas.C01A
 import Peppi.Lemmas.C01B
 import Peppi.Lemmas.C01C
 import Peppi.Lemmas.C01G
-import Peppi.PremisesViews
+import Peppi.PremisesCore
+import Peppi.PremisesArrow
 import Peppi.SlppBytes
 import Peppi.Tar
 import Peppi.SlppCut
@@ -74,60 +75,115 @@ theorem C01_G (T : TextOracle) (r : Replay) (s : Start) (gk : GeckoBlocks) (h : 
     ∃ g, readSlp T {} (r.encodeG s.version (portOccupancy s) gk) = .ok g ∧ writeSlp g = .ok (r.encodeG s.version (portOccupancy s) gk) :=
   _root_.Peppi.C01_G T r s gk h hmax
 
-/- from `Peppi.PremisesViews` -/
+/- from `Peppi.PremisesCore` -/
 open Extracted in
-theorem views_End : structOK true true End.views = true :=
-  _root_.Peppi.views_End 
+theorem core_End : structCoreOK true true End.views = true :=
+  _root_.Peppi.core_End 
 
-/- from `Peppi.PremisesViews` -/
+/- from `Peppi.PremisesCore` -/
 open Extracted in
-theorem views_Item : structOK false true Item.views = true :=
-  _root_.Peppi.views_Item 
+theorem core_Item : structCoreOK false true Item.views = true :=
+  _root_.Peppi.core_Item 
 
-/- from `Peppi.PremisesViews` -/
+/- from `Peppi.PremisesCore` -/
 open Extracted in
-theorem views_ItemMisc : structOK false false ItemMisc.views = true :=
-  _root_.Peppi.views_ItemMisc 
+theorem core_ItemMisc : structCoreOK false false ItemMisc.views = true :=
+  _root_.Peppi.core_ItemMisc 
 
-/- from `Peppi.PremisesViews` -/
+/- from `Peppi.PremisesCore` -/
 open Extracted in
-theorem views_Position : structOK false true Position.views = true :=
-  _root_.Peppi.views_Position 
+theorem core_Position : structCoreOK false true Position.views = true :=
+  _root_.Peppi.core_Position 
 
-/- from `Peppi.PremisesViews` -/
+/- from `Peppi.PremisesCore` -/
 open Extracted in
-theorem views_Post : structOK false true Post.views = true :=
-  _root_.Peppi.views_Post 
+theorem core_Post : structCoreOK false true Post.views = true :=
+  _root_.Peppi.core_Post 
 
-/- from `Peppi.PremisesViews` -/
+/- from `Peppi.PremisesCore` -/
 open Extracted in
-theorem views_Pre : structOK false true Pre.views = true :=
-  _root_.Peppi.views_Pre 
+theorem core_Pre : structCoreOK false true Pre.views = true :=
+  _root_.Peppi.core_Pre 
 
-/- from `Peppi.PremisesViews` -/
+/- from `Peppi.PremisesCore` -/
 open Extracted in
-theorem views_Start : structOK false true Start.views = true :=
-  _root_.Peppi.views_Start 
+theorem core_Start : structCoreOK false true Start.views = true :=
+  _root_.Peppi.core_Start 
 
-/- from `Peppi.PremisesViews` -/
+/- from `Peppi.PremisesCore` -/
 open Extracted in
-theorem views_StateFlags : structOK false false StateFlags.views = true :=
-  _root_.Peppi.views_StateFlags 
+theorem core_StateFlags : structCoreOK false false StateFlags.views = true :=
+  _root_.Peppi.core_StateFlags 
 
-/- from `Peppi.PremisesViews` -/
+/- from `Peppi.PremisesCore` -/
 open Extracted in
-theorem views_TriggersPhysical : structOK false true TriggersPhysical.views = true :=
-  _root_.Peppi.views_TriggersPhysical 
+theorem core_TriggersPhysical : structCoreOK false true TriggersPhysical.views = true :=
+  _root_.Peppi.core_TriggersPhysical 
 
-/- from `Peppi.PremisesViews` -/
+/- from `Peppi.PremisesCore` -/
 open Extracted in
-theorem views_Velocities : structOK false true Velocities.views = true :=
-  _root_.Peppi.views_Velocities 
+theorem core_Velocities : structCoreOK false true Velocities.views = true :=
+  _root_.Peppi.core_Velocities 
 
-/- from `Peppi.PremisesViews` -/
+/- from `Peppi.PremisesCore` -/
 open Extracted in
-theorem views_Velocity : structOK false true Velocity.views = true :=
-  _root_.Peppi.views_Velocity 
+theorem core_Velocity : structCoreOK false true Velocity.views = true :=
+  _root_.Peppi.core_Velocity 
+
+/- from `Peppi.PremisesArrow` -/
+open Extracted in
+theorem arrow_End : structArrowOK true End.views = true :=
+  _root_.Peppi.arrow_End 
+
+/- from `Peppi.PremisesArrow` -/
+open Extracted in
+theorem arrow_Item : structArrowOK true Item.views = true :=
+  _root_.Peppi.arrow_Item 
+
+/- from `Peppi.PremisesArrow` -/
+open Extracted in
+theorem arrow_ItemMisc : structArrowOK false ItemMisc.views = true :=
+  _root_.Peppi.arrow_ItemMisc 
+
+/- from `Peppi.PremisesArrow` -/
+open Extracted in
+theorem arrow_Position : structArrowOK true Position.views = true :=
+  _root_.Peppi.arrow_Position 
+
+/- from `Peppi.PremisesArrow` -/
+open Extracted in
+theorem arrow_Post : structArrowOK true Post.views = true :=
+  _root_.Peppi.arrow_Post 
+
+/- from `Peppi.PremisesArrow` -/
+open Extracted in
+theorem arrow_Pre : structArrowOK true Pre.views = true :=
+  _root_.Peppi.arrow_Pre 
+
+/- from `Peppi.PremisesArrow` -/
+open Extracted in
+theorem arrow_Start : structArrowOK true Start.views = true :=
+  _root_.Peppi.arrow_Start 
+
+/- from `Peppi.PremisesArrow` -/
+open Extracted in
+theorem arrow_StateFlags : structArrowOK false StateFlags.views = true :=
+  _root_.Peppi.arrow_StateFlags 
+
+/- from `Peppi.PremisesArrow` -/
+open Extracted in
+theorem arrow_TriggersPhysical : structArrowOK true TriggersPhysical.views = true :=
+  _root_.Peppi.arrow_TriggersPhysical 
+
+/- from `Peppi.PremisesArrow` -/
+open Extracted in
+theorem arrow_Velocities : structArrowOK true Velocities.views = true :=
+  _root_.Peppi.arrow_Velocities 
+
+/- from `Peppi.PremisesArrow` -/
+open Extracted in
+theorem arrow_Velocity : structArrowOK true Velocity.views = true :=
+  _root_.Peppi.arrow_Velocity 
 
 /- from `Peppi.SlppBytes` -/
 theorem slppRead_written {χ : Type} (C : Codec χ) (T : TextOracle) (g : PGame χ) (startBytes : Bytes) (endBytes : Option Bytes)
